@@ -596,7 +596,7 @@ class Engine(ExprMixin, StmtMixin):
                 for i, (var, lo, hi, prop) in enumerate(c.get("post_inductions", [])):
                     self.induction(s, f"post-induction{i}", var, lo, hi, prop, {"result": rv}, fi.node)
                 for i, e in enumerate(c.get("ensures", [])):
-                    self.prove(s, f"ensures{i}", e, {"result": rv}, fi.node)
+                    s.assume(self.prove(s, f"ensures{i}", e, {"result": rv}, fi.node))
             elif oc[0] == RAISE:
                 allowed = c.get("raises", ("ValueError", "NotImplementedError", "RuntimeError", "AssertionError",
                                            "IndexError", "KeyError", "TypeError"))
